@@ -101,7 +101,8 @@ def main(argv):
     results = []
     first_bad = None
     for b0 in range(0, len(specs), block):
-        part = core.run_specs(mod, specs[b0:b0 + block], wall=mod.WALL.get(tier, 120))
+        part = core.run_specs(mod, specs[b0:b0 + block],
+                              wall=float(os.environ.get("VERIF_WALL") or mod.WALL.get(tier, 120)))
         results.extend(part)
         bad = [b0 + k for k, r in enumerate(part) if r.get("viol")]
         if bad:
